@@ -131,6 +131,9 @@ def oracle(cfg, run, mod):
     quiescent = not run.final_ready
     sent = [x for x in fin["sent"]]
     recv_items = [x for _, x in fin["recv"]]
+    if None in recv_items:
+        out.append(("invented", f"the close sentinel was delivered to a receiver as an item: {fin['recv']}"))
+        recv_items = [x for x in recv_items if x is not None]
     inq = [x for x in fin["q"] if x is not None]
     codes = [c for c, _ in fin["tasks"]]
     if run.unexpected:
